@@ -761,7 +761,11 @@ func (m *lm) opPropose() string {
 	}
 	bal := m.viewBalance(n, from)
 	over := ref.V(amt).Cmp(bal) > 0
-	r := m.w.Apply(sim.Op{K: "propose", N: n, From: from, To: to, C: amt.Currency, S: amt.SupplementaryCurrency, Data: data})
+	counter := rapid.IntRange(0, 4).Draw(m.rt, "pCounter") == 0
+	if counter {
+		m.label("offer:receiver-countersigned-transaction")
+	}
+	r := m.w.Apply(sim.Op{K: "propose", N: n, From: from, To: to, C: amt.Currency, S: amt.SupplementaryCurrency, Data: data, Counter: counter})
 	m.noteResult("C01", r, "CreateLeaf")
 	if r.Vertex != nil {
 		m.pendingCreated = append(m.pendingCreated, lmCreated{n, r.Vertex, m.snaps[n]})
@@ -818,8 +822,25 @@ func (m *lm) opCraft() string {
 	if rapid.IntRange(0, 7).Draw(m.rt, "cOddWeight") == 0 {
 		weight = rapid.Uint64Range(1, 200).Draw(m.rt, "cWeight")
 	}
-	res := m.w.Apply(sim.Op{K: "craft", Sealer: sealer, From: from, To: to, C: amt.Currency, S: amt.SupplementaryCurrency, L: m.w.OrderIndex(l), R: m.w.OrderIndex(r), W: weight})
+	counter := rapid.IntRange(0, 3).Draw(m.rt, "cCounter") == 0
+	if counter {
+		m.label("offer:receiver-countersigned-transaction")
+	}
+	res := m.w.Apply(sim.Op{K: "craft", Sealer: sealer, From: from, To: to, C: amt.Currency, S: amt.SupplementaryCurrency, L: m.w.OrderIndex(l), R: m.w.OrderIndex(r), W: weight, Counter: counter})
 	v := res.Vertex
+	if rapid.IntRange(0, 3).Draw(m.rt, "cTamperFirst") == 0 {
+		// a tampered copy (one sealed field changed, not re-sealed) reaches the node before the original
+		kind := rapid.IntRange(0, len(sim.TamperKinds)-1).Draw(m.rt, "cTamperKind")
+		tr := m.w.Apply(sim.Op{K: "tamper", N: n, V: m.w.OrderIndex(v.Hash), Cnt: kind})
+		m.noteResult("C09", tr, "AddLeaf")
+		m.label("offer:tampered-copy:" + sim.TamperKinds[kind])
+		if counter {
+			m.label("offer:tampered-copy-of-countersigned")
+		}
+		if tr.Err == nil {
+			m.addViol("C09", "tampered-admitted", "node %d accepted a copy of %s with %s changed and the seal left as it was", n, m.describe(v), sim.TamperKinds[kind])
+		}
+	}
 	if over {
 		m.overdraw[v.Hash] = true
 		m.label("offer:overdraw-rogue-vertex")
